@@ -9,6 +9,7 @@ From Coq Require Import QArith Qabs.
 From Coq.Strings Require Import Byte.
 From EsVerif.Common Require Import Base Bytes.
 From EsVerif.C04 Require Import Gen TextModel Spec DecProofs ScanProofs WriteProofs RoundTrip CheckProofs FmtModel FmtProofs AccProofs Exec ExecProofs.
+Open Scope Z_scope.
 
 (* ---- integers: printf %d / scanf %d and the memory image are inverse to each other *)
 Theorem C04_dec_parse_roundtrip : forall z, parse_dec (dec z) = z.
